@@ -8,6 +8,12 @@ import (
 )
 
 func init() {
+	vk.Register("debug.pb", func(p vbase.Params, r *vbase.Result) {
+		c := RunPrivateBranch(int(p.Seed), "chainedhotstuff", vbase.NewRng(p.Seed, "dbg"), r, func(m *Monitors) { m.Commit = true })
+		for _, v := range c.Mon.Viol {
+			fmt.Println("VIOL", v.Sig, v.Msg)
+		}
+	})
 	vk.Register("debug.fq", func(p vbase.Params, r *vbase.Result) {
 		c := RunForgedQCToNextLeader(int(p.Seed), "eddsa", vbase.NewRng(p.Seed, "dbg"), r, func(m *Monitors) { m.Vote = true })
 		for _, v := range c.Mon.Viol {
@@ -196,6 +202,15 @@ func simCampaign(prop string, enable func(*Monitors), clients bool) vk.Campaign 
 					if p.Mine(560 + 4*k + variant) {
 						if c := RunStaleLeader(variant, rs, "eddsa", vbase.NewRng(p.Seed, "stale-leader", rs, variant), r, enable); c != nil {
 							finish(c, c.Cfg.String()+" "+c.Cfg.Label, -2200-4*k-variant, "directed")
+						}
+					}
+				}
+			}
+			for k, rs := range Rulesets[:2] {
+				for variant := 0; variant < 10; variant++ {
+					if p.Mine(600 + 10*k + variant) {
+						if c := RunPrivateBranch(variant, rs, vbase.NewRng(p.Seed, "private-branch", rs, variant), r, enable); c != nil {
+							finish(c, c.Cfg.String()+" "+c.Cfg.Label, -2400-10*k-variant, "directed")
 						}
 					}
 				}
